@@ -30,7 +30,8 @@ GARBAGE = ["", " ", "<", "<math", "<math>", "</math>", "<math></math>", "<math/>
            "<math><mtable><mi>x</mi></mtable></math>", "<math><mtr><mtd><mi>x</mi></mtd></mtr></math>", "<math><mtd><mi>x</mi></mtd></math>",
            "<math><mmultiscripts/></math>", "<math><mmultiscripts><mi>x</mi><mprescripts/><mprescripts/></mmultiscripts></math>",
            "<math><none/></math>", "<math><mprescripts/></math>", "<math><mo></mo></math>", "<math><mn></mn><mn></mn></math>",
-           "<math><mi intent='(((('>x</mi></math>", "<math><mrow intent='mi($a)($b)'><mi arg='a'>x</mi><mo>+</mo><mi arg='b'>y</mi></mrow></math>",
+           "<math><mi intent='(((('>x</mi></math>", "<math><mrow intent='=приблизительноравно($a,$b)'><mi arg='a'>x</mi><mo>+</mo><mi arg='b'>y</mi></mrow></math>",
+           "<math><mrow intent='ab ) ΩΩΩΩΩΩΩΩΩΩΩΩΩΩΩΩΩΩΩΩΩΩΩΩΩΩΩΩΩΩΩΩΩΩΩΩ'><mi arg='a'>x</mi><mo>+</mo><mi arg='b'>y</mi></mrow></math>", "<math><mrow intent='mi($a)($b)'><mi arg='a'>x</mi><mo>+</mo><mi arg='b'>y</mi></mrow></math>",
            "<math><mrow intent='mtext($a)($b)($a)'><mi arg='a'>x</mi><mo>+</mo><mi arg='b'>y</mi></mrow></math>", "<math><mrow intent='f($a'><mi arg='a'>x</mi></mrow></math>", "<math><mi id=''>x</mi></math>",
            "<math><mi id='a'>x</mi><mi id='a'>y</mi></math>", "<math><mi data-maybe-chemistry='x'>H</mi></math>", "<math><mi data-changed='empty_content'/><mi>x</mi></math>",
            "<math><mi>x</mi><mi data-changed='empty_content'/><mi>y</mi></math>", "<math display='block' alttext='&lt;'><mi>x</mi></math>",
@@ -231,6 +232,22 @@ def histories(res):
               ["get_braille_position"], ["do_navigate_command", "ZoomIn"], ["do_navigate_keypress", 39, False, False, False, False], ["set_navigation_node", "x", 0],
               ["get_navigation_node_from_braille_position", 0], ["set_mathml", "<math><mi>x</mi></math>"]):
         hs.append(([q, q], rng.choice(FINAL)))
+    # number-valued preferences at the ends of what set_preference accepts, with and without a speech engine, on an
+    # expression whose speech has pauses next to each other
+    nested = X.math("<mrow><mfrac><mrow><mi>x</mi><mo>+</mo><mn>1</mn></mrow><mi>y</mi></mfrac><mo>+</mo><mfrac><mfrac><mi>a</mi><mi>b</mi></mfrac><mi>c</mi></mfrac><mo>=</mo><mi>A</mi></mrow>")
+    for k in ("Rate", "PauseFactor", "MathRate", "Pitch", "Volume", "CapitalLetters_Pitch"):
+        for v in ("0.000000000000001", "1e-30", "1e-300", "0", "-1", "-1e30", "1e30", "1e300", "100000000000000000000", "NaN", "inf", "-inf"):
+            for tts in (("SSML", "SAPI5", "none") if tier != "quick" else (rng.choice(["SSML", "SAPI5"]),)):
+                hs.append(([["set_rules_dir", C.RULES], ["set_preference", "TTS", tts], ["set_preference", k, v], ["set_mathml", nested], ["get_spoken_text"], ["get_overview_text"],
+                            ["do_navigate_command", "ZoomIn"], ["do_navigate_command", "ReadNext"], ["get_braille", ""]], rng.choice(FINAL)))
+    # every fixed intent value of the C19 pool (illegal, odd, long, with characters of several bytes), spoken, overviewed and
+    # navigated in both recovery modes
+    from . import c19
+    for mode in ("IgnoreIntent", "Error"):
+        h = [["set_rules_dir", C.RULES], ["set_preference", "IntentErrorRecovery", mode]]
+        for v in c19.FIXED:
+            h += [["set_mathml", c19.expr(v)], ["get_spoken_text"], ["do_navigate_command", "ZoomIn"], ["get_overview_text"]]
+        hs.append((h, rng.choice(FINAL)))
     # every key code with every modifier combination, on an expression with a table
     tab = X.math("<mrow><mi>x</mi><mo>=</mo><mtable><mtr><mtd><mn>1</mn></mtd><mtd><mn>2</mn></mtd></mtr><mtr><mtd><mn>3</mn></mtd><mtd><mfrac><mn>1</mn><mn>2</mn></mfrac></mtd></mtr></mtable></mrow>")
     for mods in range(16 if tier != "quick" else 4):
